@@ -18,7 +18,7 @@ def _filter(out):
     return "\n".join(l for l in out.splitlines() if not NOISE.match(l))
 
 
-def prepare(scratch, units):
+def prepare(scratch, units, tier="quick"):
     """Inject harness modules and contract attributes.  Returns (log of edits)."""
     edits = []
     hdir = os.path.join(scratch.root, "harness")
@@ -84,6 +84,15 @@ def prepare(scratch, units):
             src = os.path.join(u["dir"], inj["harness"])
             dst = os.path.join(hdir, "%s__%s" % (u["name"], os.path.basename(inj["harness"])))
             shutil.copy(src, dst)
+            if tier == "thorough" and cfg.get("thorough_subst"):
+                # thorough tier: larger caps for the BOUNDED items (textual substitution of harness constants)
+                txt = open(dst).read()
+                for a_, b_ in cfg["thorough_subst"].items():
+                    if a_ not in txt and inj["harness"] in cfg.get("thorough_subst_files", [inj["harness"]]):
+                        raise Undecided("thorough_subst anchor %r not in %s" % (a_, inj["harness"]))
+                    txt = txt.replace(a_, b_)
+                open(dst, "w").write(txt)
+                edits.append("thorough tier: harness constants of %s substituted: %s" % (u["name"], cfg["thorough_subst"]))
             inj["_scratch_harness"] = dst
             rel = inj["file"]
             if not os.path.exists(scratch.path(rel)):
@@ -146,7 +155,7 @@ def run_units(unit_names, tier, tag, only_props=None):
                     if "kani::stub" in code or "stub_verified" in code:
                         info["trusted_scan"].append("%s/%s:%d: %s" % (u["name"], fn, i, code.strip()))
     with Scratch(tag) as sc:
-        info["edits"] = prepare(sc, units)
+        info["edits"] = prepare(sc, units, tier)
         if os.environ.get("VERIF_PREPARE_ONLY"):
             os.environ["VERIF_KEEP_SCRATCH"] = "1"
             raise Undecided("prepared scratch only: %s" % sc.root)
